@@ -39,6 +39,7 @@ def run(ck):
     r2_no_save_after_backup(ck, [seq, save_worker])
     c04.r1_fields_restored(ck, rule="C05-R3a")
     c04.r2_single_caller(ck, rule="C05-R3b")
+    c04.r3b_pop_after_rollback(ck, rule="C05-R3c")
     r4(ck, par)
     r5(ck, main, cmd_push, seq, par)
 
@@ -184,25 +185,48 @@ def r2_seq(ck, seq, rule="C05-R2"):
             continue
         for sw in pt.ok_payload_switch(seq, re["local"]):
             okfalse.append(sw["false_edge"])
-    ck.floor(rule, "Ok(false) edges of apply_one_file_patch (sequential)", len(okfalse), 1)
     okfalse_region = guards.region_of_edges(seq, okfalse)
     count_local, agg_stmt = applied_count_local(seq)
+
+    def is_not_payload(e):
+        """!( <result of apply_one_file_patch> as Ok|Continue ).0"""
+        if isinstance(e, tuple) and e[0] == "un" and e[1] == "Not":
+            x = e[2]
+            return isinstance(x, tuple) and x[0] == "field" and x[2] == 0 and isinstance(x[1], tuple) and x[1][0] == "downcast" and \
+                x[1][2] in ("Ok", "Continue") and df.mentions(x[1][1], lambda y: df.is_call(y, "apply_one_file_patch"))
+        return False
     for fl in flags:
         l = fl["local"]
         name = seq.local_name(l) or "_%d" % l
-        # (i) set to true only on the Ok(false) edge
-        sets_true = []
+        me = ("local", l, seq.local_name(l))
+        # (i) raised exactly when apply_one_file_patch returned Ok(false): `flag = true` on that edge, or `flag = flag | !ok`
+        bad = []
+        raised = 0
+        self_tests = guards.find_bool_guards(seq, lambda e: e == me)
         for dd in df.defs_of(seq).all(l):
-            if dd[0] == "stmt" and dd[3]["rv"]["k"] == "use" and dd[3]["rv"]["op"].get("int") == 1:
-                sets_true.append(dd)
-            elif dd[0] == "stmt" and dd[3]["rv"]["k"] == "use" and dd[3]["rv"]["op"].get("int") == 0:
-                pass
-            else:
-                sets_true.append(dd)   # computed value: must also be on the Ok(false) edge
-        bad = [seq.where(dd[3]) if dd[0] == "stmt" else "bb%d" % dd[1] for dd in sets_true if dd[1] not in okfalse_region]
-        ck.require(bool(sets_true) and not bad, rule, "flag `%s` raised exactly on Ok(false) of apply_one_file_patch" % name,
-                   "flag `%s` is set outside the Ok(false) edge at %s (or never set)" % (name, bad), seq.where(),
-                   ok_detail="%d assignment(s) of true, all dominated by an Ok(false) edge" % len(sets_true))
+            if dd[0] != "stmt":
+                bad.append("bb%d (not a plain assignment)" % dd[1])
+                continue
+            rv = dd[3]["rv"]
+            if rv["k"] == "use" and rv["op"].get("int") == 0:
+                continue                                    # reset
+            if rv["k"] == "use" and rv["op"].get("int") == 1:
+                if dd[1] in okfalse_region:
+                    raised += 1
+                elif any(dd[1] in cfg.dominated_by_edge(seq, g["true_edge"]) for g in self_tests):
+                    pass                                    # `flag = true` where it already is true (short-circuit forms)
+                else:
+                    bad.append(seq.where(dd[3]))
+                continue
+            e = df.rvalue_expr(seq, rv)
+            if is_not_payload(e) or (isinstance(e, tuple) and e[0] == "bin" and e[1] == "BitOr" and
+                                     any(is_not_payload(x) for x in e[2:4]) and any(x == me for x in e[2:4])):
+                raised += 1
+                continue
+            bad.append("%s (value %s)" % (seq.where(dd[3]), df.show(e, 60)))
+        ck.require(raised >= 1 and not bad, rule, "flag `%s` raised exactly on Ok(false) of apply_one_file_patch" % name,
+                   "flag `%s` is set outside the Ok(false) outcome at %s (or never raised)" % (name, bad), seq.where(),
+                   ok_detail="%d raising assignment(s), all tied to an Ok(false) outcome" % raised)
         # (ii) from the true edge every path to a return passes the reject/rollback call (not dry-run)
         tgt = fl["true_edge"][1]
         # `?` error returns are exempt: blocks that assign _0 via from_residual
